@@ -425,6 +425,12 @@ pub struct Decl {
     /// raw literals to evaluate through `const X = T::try_new(LIT)` (const_fn declarations)
     pub const_evals: Vec<String>,
     pub tags: Vec<String>,
+    /// C02: attribute text given literally (overrides the rendering of all blocks)
+    pub raw_attr: Option<String>,
+    /// C02: an earlier `validate(..)` block written before the main one (the model enforces the union)
+    pub pre_vals: Vec<ValSpec>,
+    /// C02: an earlier `sanitize(..)` block written before the main one
+    pub pre_sans: Vec<SanSpec>,
 }
 
 impl Decl {
@@ -445,6 +451,9 @@ impl Decl {
             twin_kind: None,
             const_evals: vec![],
             tags: vec![],
+            raw_attr: None,
+            pre_vals: vec![],
+            pre_sans: vec![],
         }
     }
     pub fn has_validation(&self) -> bool {
@@ -507,8 +516,28 @@ impl Decl {
 
     /// the attribute arguments, `sanitize(..), validate(..), derive(..), ..`
     pub fn attr_text(&self) -> String {
+        if let Some(r) = &self.raw_attr {
+            return r.clone();
+        }
         let mut parts: Vec<String> = vec![];
         let inner_comma = if self.layout.trailing_comma_inner { "," } else { "" };
+        if !self.pre_sans.is_empty() {
+            let items: Vec<String> = self
+                .pre_sans
+                .iter()
+                .map(|s| match s {
+                    SanSpec::Trim => "trim".to_string(),
+                    SanSpec::Lower => "lowercase".to_string(),
+                    SanSpec::Upper => "uppercase".to_string(),
+                    SanSpec::With(f) => format!("with = {}", self.fn_text(f, false)),
+                })
+                .collect();
+            parts.push(format!("sanitize({})", items.join(", ")));
+        }
+        if !self.pre_vals.is_empty() {
+            let items: Vec<String> = self.pre_vals.iter().map(|v| self.val_text(v)).collect();
+            parts.push(format!("validate({})", items.join(", ")));
+        }
         for b in &self.layout.order {
             match b {
                 Block::Sanitize => {
@@ -611,7 +640,7 @@ impl Decl {
         }
         // neutral consts: rustc computes the denoted values
         let mut bi = 0;
-        for val in self.std_vals() {
+        for val in self.pre_vals.iter().chain(self.std_vals().iter()) {
             if let Some(b) = val.bound() {
                 let bty = if is_str { "usize" } else { ii };
                 w!(o, "pub const B{bi}: {bty} = {};", b.neutral_text);
@@ -655,7 +684,7 @@ impl Decl {
                 let en = format!("{}Error", self.type_name);
                 w!(o, "fn err(e: {en}) -> ErrR {{ match e {{");
                 for (i, val) in vs.iter().enumerate() {
-                    w!(o, "    {en}::{} => ErrR::Ix({i}),", val.variant());
+                    w!(o, "    {en}::{} => ErrR::Ix({}),", val.variant(), i + self.pre_vals.len());
                 }
                 w!(o, "}} }}");
                 w!(o, "fn err_from_ix(i: usize) -> Option<{en}> {{ match i {{");
@@ -684,7 +713,7 @@ impl Decl {
         let m = self.inner.fn_mod();
         w!(o, "static MODEL: Model<II> = Model {{");
         w!(o, "    sans: &[");
-        for s in &self.sans {
+        for s in self.pre_sans.iter().chain(self.sans.iter()) {
             match s {
                 SanSpec::Trim => w!(o, "        San::Trim,"),
                 SanSpec::Lower => w!(o, "        San::Lower,"),
@@ -702,7 +731,7 @@ impl Decl {
             Vals::Std(vs) => {
                 w!(o, "    vals: MVals::Std(&[");
                 let mut bi = 0;
-                for val in vs {
+                for val in self.pre_vals.iter().chain(vs.iter()) {
                     match val {
                         ValSpec::Greater(_) => {
                             w!(o, "        MVal::Greater(B{bi}),");
